@@ -7,7 +7,8 @@
   Observable labels (`Ev`) are exactly what the C25 harness records; the
   environment's answers, the moment the monitor context is cancelled and (when
   the verifPoints are not compiled in) the monitor's internal steps are hidden
-  (`tau`).  Comments quote client.go.
+  (`tau`).  Comments quote client.go (with the `report` guard in `monitor` and
+  `mcancel()` before `setState(Closed)` in `Close`).
 -/
 namespace Opcua.ConnLts
 
@@ -114,8 +115,8 @@ def monHidden (s : St) : List St :=
 /-- hidden steps -/
 def tau (s : St) : List St :=
   (if s.hooks then [] else monHidden s) ++
-  -- Close: `c.mcancel()` after `c.setState(ctx, Closed)`
-  (if s.cl == .reported && !s.cancelled then [{ s with cancelled := true }] else []) ++
+  -- Close: c.CloseSession(ctx); `c.mcancel()` — before `c.setState(ctx, Closed)`
+  (if s.cl == .begun && !s.cancelled then [{ s with cancelled := true }] else []) ++
   (match s.upc with
    -- c.Dial(ctx) failed / succeeded
    | .c2 => [{ s with upc := .cDialFailed }, { s with upc := .cSess }]
@@ -124,11 +125,18 @@ def tau (s : St) : List St :=
    | _ => []) ++
   (match s.mpc with
    -- case <-ctx.Done(): return          (top-level select)
-   | .wait => if s.cancelled then [{ s with mpc := .exit }] else []
+   -- … or `case err := <-c.sechanErr` with the context already cancelled: report(Disconnected) is suppressed
+   | .wait => if s.cancelled then [{ s with mpc := .exit }, { s with mpc := .disc }] else []
    -- if !c.cfg.sechan.AutoReconnect { return }    /  switch on the error class; c.pauseSubscriptions(ctx)
    | .err c => if s.auto then [{ s with mpc := .top (classify c) }] else [{ s with mpc := .exit }]
    -- case <-ctx.Done(): return          (action loop)
    | .top _ => if s.cancelled then [{ s with mpc := .exit }] else []
+   -- report := func(s) { if ctx.Err() != nil { return }; c.setState(ctx, s) }: after cancellation the
+   -- actions run on without reporting
+   | .act .createSecureChannel => if s.cancelled then [{ s with mpc := .dialLoop }] else []
+   | .act .restoreSession => if s.cancelled then [{ s with mpc := .restore1 }] else []
+   | .act .recreateSession => if s.cancelled then [{ s with mpc := .recreate1 }] else []
+   | .act .restoreSubscriptions => if s.cancelled then [{ s with mpc := .done }] else []
    -- transferSubscriptions: action = restoreSubscriptions
    | .act .transferSubscriptions => [{ s with mpc := .top .restoreSubscriptions }]
    -- abortReconnect: return
@@ -173,7 +181,7 @@ def obs (s : St) (e : Ev) : List St :=
    | .uConnectErr =>
      if s.upc == .cDialFailed || s.upc == .cClose2 then [{ s with upc := .failed }] else []
    | .uClose => if s.upc == .running && s.cl == .no then [{ s with cl := .begun }] else []
-   | .uCloseEnd => if s.cl == .reported && s.cancelled then [{ s with cl := .ended }] else []
+   | .uCloseEnd => if s.cl == .reported then [{ s with cl := .ended }] else []
    | .dial =>
      -- c.cfg.dialer.Dial(ctx, c.endpointURL): one TCP connect attempt (not made when ctx is cancelled)
      (if s.upc == .c1 then [{ s with upc := .c2 }] else []) ++
@@ -187,19 +195,20 @@ def obs (s : St) (e : Ev) : List St :=
       -- Connect → c.Close(ctx): c.setState(ctx, Closed)
       | .cClose1, .closed => [{ s with upc := .cClose2, last := x }]
       | _, _ => []) ++
-     -- Close: c.CloseSession(ctx); c.setState(ctx, Closed)
-     (if s.cl == .begun && x == .closed then [{ s with cl := .reported, sess := false, last := x }] else []) ++
+     -- Close: … c.mcancel(); c.setState(ctx, Closed)
+     (if s.cl == .begun && s.cancelled && x == .closed then [{ s with cl := .reported, sess := false, last := x }] else []) ++
+     -- the monitor's reports go through `report`: nothing but the deferred Closed once ctx is cancelled
      (match s.mpc, x with
-      -- case err := <-c.sechanErr: … c.setState(ctx, Disconnected)
-      | .wait, .disconnected => [{ s with mpc := .disc, last := x }]
-      -- createSecureChannel: c.setState(ctx, Reconnecting)
-      | .act .createSecureChannel, .reconnecting => [{ s with mpc := .dialLoop, last := x }]
-      -- restoreSession: c.setState(ctx, Reconnecting)
-      | .act .restoreSession, .reconnecting => [{ s with mpc := .restore1, last := x }]
-      -- recreateSession: c.setState(ctx, Reconnecting)
-      | .act .recreateSession, .reconnecting => [{ s with mpc := .recreate1, last := x }]
-      -- restoreSubscriptions: c.setState(ctx, Connected); action = none
-      | .act .restoreSubscriptions, .connected => [{ s with mpc := .done, last := x }]
+      -- case err := <-c.sechanErr: … report(Disconnected)
+      | .wait, .disconnected => if s.cancelled then [] else [{ s with mpc := .disc, last := x }]
+      -- createSecureChannel: report(Reconnecting)
+      | .act .createSecureChannel, .reconnecting => if s.cancelled then [] else [{ s with mpc := .dialLoop, last := x }]
+      -- restoreSession: report(Reconnecting)
+      | .act .restoreSession, .reconnecting => if s.cancelled then [] else [{ s with mpc := .restore1, last := x }]
+      -- recreateSession: report(Reconnecting)
+      | .act .recreateSession, .reconnecting => if s.cancelled then [] else [{ s with mpc := .recreate1, last := x }]
+      -- restoreSubscriptions: report(Connected); action = none
+      | .act .restoreSubscriptions, .connected => if s.cancelled then [] else [{ s with mpc := .done, last := x }]
       -- defer c.setState(ctx, Closed)
       | .exit, .closed => [{ s with mpc := .dead, last := x }]
       | _, _ => [])
@@ -265,8 +274,8 @@ def monTable (m : MPc) (l : ConnState) : Bool :=
   | .dead => l == .closed
 
 /-- invariant of every reachable state: program points vs. last reported
-    state; after the user's Close reported Closed the last state may also be
-    Closed at any monitor point -/
+    state while the monitor context is live; after cancellation (Close) the last
+    report of Close and of an exited monitor is Closed -/
 def Good (s : St) : Bool :=
   (match s.upc with
    | .fresh | .c0 => s.last == .closed && s.mpc == .notStarted && s.cl == .no
@@ -275,9 +284,11 @@ def Good (s : St) : Bool :=
    | .failed => s.mpc == .notStarted && (s.last == .closed || s.last == .connecting) && s.cl == .no
    | .c4 => s.mpc != .notStarted && s.cl == .no
    | .running => s.mpc != .notStarted) &&
-  (monTable s.mpc s.last || (s.clRep && s.last == .closed)) &&
-  -- cancellation belongs to Close
-  (!s.cancelled || s.clRep) && (!(s.cl == .ended) || s.cancelled)
+  (s.cancelled || monTable s.mpc s.last) &&
+  (s.mpc != .dead || s.last == .closed) &&
+  (!s.clRep || s.last == .closed) &&
+  -- cancellation belongs to Close and precedes its report
+  (!s.cancelled || s.cl != .no) && (!s.clRep || s.cancelled)
 
 /-! ### progress measures -/
 
